@@ -3,6 +3,10 @@
 // fragmentation of every stream is enumerated, with and without flush ticks between the reads. The well-formed records that
 // surround the bad input must come out intact: bad input may be rejected, cut or attached to the record BEFORE it (that is
 // what a continuation line is), but it must never damage the records behind it and never wedge or crash the reader.
+//
+// Every unit the framer emits is handed - as runConnection does - to the Accept of a real LogParsingReceiver sink (real
+// syslog parser); what the parser passes on is captured. So the parser sees exactly the units the real framer produces
+// (the empty unit, lumps, records with attached garbage lines, cut records).
 package main
 
 import (
@@ -10,8 +14,13 @@ import (
 	"fmt"
 	"io"
 	"strings"
+	"time"
 
 	"github.com/relex/gotils/logger"
+	"github.com/relex/gotils/promexporter/promreg"
+	"github.com/relex/slog-agent/base"
+	"github.com/relex/slog-agent/base/bsupport"
+	"github.com/relex/slog-agent/input/syslogparser"
 	"github.com/relex/slog-agent/input/syslogprotocol"
 	"github.com/relex/slog-agent/input/tcplistener"
 
@@ -23,13 +32,18 @@ const (
 	bufSize   = 256 // = 4 * softLimit, the shipped proportion (ListenerLineBufferSize = 4 * InputLogMaxRecordBytes)
 )
 
+const recLen = 44
+
 func rec(n int, tag string) string {
 	s := fmt.Sprintf("<13>1 2020-01-02T03:04:05Z host app %d id - %s", n, tag)
-	for len(s) < 44 {
+	for len(s) < recLen {
 		s += "."
 	}
 	return s
 }
+
+// msgOf is the message part of a record built by rec.
+func msgOf(s string) string { return s[strings.Index(s, " - ")+3:] }
 
 type badKind struct {
 	name string
@@ -59,11 +73,102 @@ func kinds() []badKind {
 	for _, n := range []int{bufSize - 50, bufSize, 2*bufSize + 3} {
 		k = append(k, badKind{fmt.Sprintf("long-record-%d", n), rec(7, "BIG") + strings.Repeat("M", n) + "\n"})
 	}
+	// heads of every PRI width that stop short of a record (a record cut behind its version / first fields), followed by a
+	// run of them (each one is tested as a possible record start with earlier lines in the buffer)
+	k = append(k,
+		badKind{"pri1-head-only", "<1>1\n"},
+		badKind{"pri3-head-only", "<123>1\n"},
+		badKind{"pri3-short-head", "<123>1 short\n"},
+		badKind{"pri-heads-run", "<1>1\n<12>1\n<123>1\n<1234>1\n<123>1 \n<123\n"},
+	)
 	return k
 }
 
+// ------------------------------------------------------------------------------------------------------------------
+// the parser behind the framer
+
+type parsed struct{ host, app, pid, source, log string }
+
+// parseRig is one long-lived LogParsingReceiver with one sink (one "connection"), as tcpLineListener.runConnection uses it.
+type parseRig struct {
+	alloc      *base.LogAllocator
+	sink       base.MessageReceiverSink
+	got        []parsed
+	pass, drop interface{ Get() uint64 }
+	p0, d0     uint64
+	loc        struct{ host, app, pid, source, log base.LogFieldLocator }
+	cases      int
+}
+
+type capRecv struct{ rig *parseRig }
+
+func (c capRecv) NewSink(string, base.ClientNumber) base.BufferReceiverSink { return c }
+func (c capRecv) Tick()                                                     {}
+func (c capRecv) Close()                                                    {}
+func (c capRecv) Accept(buffer []*base.LogRecord) {
+	r := c.rig
+	for _, lr := range buffer {
+		f := lr.Fields
+		r.got = append(r.got, parsed{strings.Clone(r.loc.host.Get(f)), strings.Clone(r.loc.app.Get(f)), strings.Clone(r.loc.pid.Get(f)),
+			strings.Clone(r.loc.source.Get(f)), strings.Clone(r.loc.log.Get(f))})
+		r.alloc.Release(lr)
+	}
+}
+
+func newParseRig() *parseRig {
+	schema := base.MustNewLogSchema([]string{"facility", "level", "time", "host", "app", "pid", "source", "extradata", "log"})
+	r := &parseRig{alloc: base.NewLogAllocator(schema, 1)}
+	r.loc.host, r.loc.app, r.loc.pid = schema.MustCreateFieldLocator("host"), schema.MustCreateFieldLocator("app"), schema.MustCreateFieldLocator("pid")
+	r.loc.source, r.loc.log = schema.MustCreateFieldLocator("source"), schema.MustCreateFieldLocator("log")
+	factory := promreg.NewMetricFactory("v_", nil, nil)
+	mc := factory.AddOrGetPrefix("input_", []string{"protocol"}, []string{"syslog"})
+	createParser := func(l logger.Logger, ic *base.LogInputCounterSet) base.LogParser {
+		return syslogparser.MustNewParser(l, r.alloc, schema, nil, ic)
+	}
+	recv := bsupport.NewLogParsingReceiver(logger.Root(), createParser, capRecv{r}, mc)
+	r.sink = recv.NewSink("10.0.0.1:1001", 1)
+	r.pass = mc.AddOrGetCounter("passed_records_total", "", nil, nil)
+	r.drop = mc.AddOrGetCounter("dropped_records_total", "", nil, nil)
+	return r
+}
+
+// begin starts the observation of one stream.
+func (r *parseRig) begin() {
+	r.got = r.got[:0]
+	r.p0, r.d0 = r.pass.Get(), r.drop.Get()
+	r.cases++
+}
+
+// the rig of this worker process; replaced after any violation (its state may be broken) and every 4096 streams
+var rig *parseRig
+
+func theRig() *parseRig {
+	if rig == nil || rig.cases >= 4096 {
+		rig = newParseRig()
+	}
+	return rig
+}
+
+// ------------------------------------------------------------------------------------------------------------------
+
+// readObs is what is seen of one Read call that delivered bytes.
+type readObs struct {
+	total int  // bytes of the stream read so far, this read included
+	held  int  // bytes in the reader's buffer once this read had been appended (before any record was taken out)
+	reset bool // the reader emptied its buffer in this call (offsetAppend back to 0): the overflow path
+}
+
+type outcome struct {
+	units [][]byte
+	reads []readObs
+	wedge string
+}
+
 // run feeds the stream cut at the given offsets; flushMask bit i = a Flush() after fragment i.
-func run(stream []byte, cuts []int, flushMask int) (units [][]byte, wedge string) {
+func run(stream []byte, cuts []int, flushMask int) *outcome {
+	out := &outcome{}
+	pr := theRig()
+	pr.begin()
 	var frags [][]byte
 	prev := 0
 	for _, c := range cuts {
@@ -71,8 +176,9 @@ func run(stream []byte, cuts []int, flushMask int) (units [][]byte, wedge string
 		prev = c
 	}
 	frags = append(frags, stream[prev:])
-	fi, off := 0, 0
+	fi, off, total, lastN := 0, 0, 0, 0
 	read := func(p []byte) (int, error) {
+		lastN = 0
 		for fi < len(frags) && off == len(frags[fi]) {
 			return 0, errFragmentEnd
 		}
@@ -81,52 +187,73 @@ func run(stream []byte, cuts []int, flushMask int) (units [][]byte, wedge string
 		}
 		n := copy(p, frags[fi][off:])
 		off += n
+		total += n
+		lastN = n
 		return n, nil
 	}
-	consume := func(s []byte) { units = append(units, append([]byte(nil), s...)) }
+	consume := func(s []byte) {
+		out.units = append(out.units, append([]byte(nil), s...))
+		pr.sink.Accept(s)
+	}
 	r := tcplistener.VerifNewMultiLineReader(read, syslogprotocol.TestRecordStart, bufSize, softLimit, consume)
 	steps := 0
 	for fi < len(frags) {
+		_, before, _ := r.Offsets()
 		err := r.Read()
+		if lastN > 0 {
+			_, after, _ := r.Offsets()
+			out.reads = append(out.reads, readObs{total, before + lastN, after == 0})
+		}
 		steps++
 		if steps > 10*len(stream)+100 {
-			return units, "read loop makes no progress"
+			out.wedge = "read loop makes no progress"
+			return out
 		}
 		if err == errFragmentEnd {
 			// end of a TCP segment: the next read would block; a flush tick may fall here
 			if flushMask&(1<<uint(fi)) != 0 {
 				r.Flush()
+				pr.sink.Flush()
 			}
 			fi++
 			off = 0
 		}
 	}
 	r.FlushAll()
-	return units, ""
+	pr.sink.Flush()
+	return out
 }
 
 var errFragmentEnd = fmt.Errorf("fragment end")
 
-func check(stream []byte, s1, s2, s3 string, cuts []int, flushMask int) (string, string) {
-	key, msg := check1(stream, s1, s2, s3, cuts, flushMask)
-	if key != "" && key != "wedge" {
-		// classify by whether the reader's overflow handling is reachable at all in front of S2: it is when the bytes
-		// buffered before S2 is complete (the record in front of it incl. attached bad lines, plus S2 itself) can exceed
-		// buffer - softLimit. Everything else is a different root cause.
-		inFront := len(stream) - len(s2) - 1 - len(s3) - 1
-		if inFront+len(s2) > bufSize-softLimit {
-			key += ":after-oversized-input"
-		} else {
-			key += ":ordinary-input"
+// expect says which of the three records stand behind bad input (and must therefore come out byte-identical); the others
+// may have later lines attached (continuation lines) and are recognised by their own bytes coming first.
+type expect struct {
+	s1Exact, s2Exact, s3Exact bool
+}
+
+var middle = expect{false, true, true} // S1, BAD, S2, S3
+
+// knownKey is the one class of damage that is a known finding: see overflowExplains.
+const knownKey = "record-directly-behind-bad-input-lost-or-cut:after-oversized-input"
+
+func check(stream []byte, s1, s2, s3 string, cuts []int, flushMask int, ex expect) (key, msg string) {
+	fine := false
+	defer func() {
+		if !fine {
+			rig = nil // after a violation or a panic the parser side may be in any state
 		}
-	}
+	}()
+	key, msg = check1(stream, s1, s2, s3, cuts, flushMask, ex)
+	fine = key == ""
 	return key, msg
 }
 
-func check1(stream []byte, s1, s2, s3 string, cuts []int, flushMask int) (string, string) {
-	units, wedge := run(stream, cuts, flushMask)
-	if wedge != "" {
-		return "wedge", wedge
+func check1(stream []byte, s1, s2, s3 string, cuts []int, flushMask int, ex expect) (string, string) {
+	out := run(stream, cuts, flushMask)
+	units := out.units
+	if out.wedge != "" {
+		return "wedge", out.wedge
 	}
 	count := func(want string, exact bool) (n int) {
 		for _, u := range units {
@@ -152,21 +279,94 @@ func check1(stream []byte, s1, s2, s3 string, cuts []int, flushMask int) (string
 	}
 	// S1 stands in front of the bad input: it comes out once, beginning with its own bytes (bad lines behind it may be
 	// attached as continuation lines — that is the documented multi-line behaviour)
-	if n := count(s1, false); n != 1 {
+	if n := count(s1, ex.s1Exact); n != 1 {
 		return "record-before-bad-input", fmt.Sprintf("the record in front of the bad input came out %d times; units: %s", n, describe())
 	}
 	// S2 and S3 stand behind the bad input: each comes out exactly once and byte-identical
-	if n := count(s2, true); n != 1 {
-		cls := "record-directly-behind-bad-input-damaged"
-		if count(s2, false) == 0 {
-			cls = "record-directly-behind-bad-input-lost-or-cut"
+	if n := count(s2, ex.s2Exact); n != 1 {
+		if ex.s2Exact && n == 0 && count(s2, false) == 0 {
+			if why := overflowExplains(stream, out, s2, s3); why == "" {
+				return knownKey, fmt.Sprintf("the well-formed record directly behind the bad input was cut at a point where the reader emptied its full buffer; units: %s", describe())
+			} else {
+				return "record-directly-behind-bad-input-lost-or-cut:not-the-documented-overflow-cut", fmt.Sprintf("the well-formed record directly behind the bad input is missing (%s); units: %s", why, describe())
+			}
 		}
-		return cls, fmt.Sprintf("the well-formed record directly behind the bad input came out intact %d times; units: %s", n, describe())
+		return "record-directly-behind-bad-input-damaged", fmt.Sprintf("the well-formed record directly behind the bad input came out intact %d times; units: %s", n, describe())
 	}
-	if n := count(s3, true); n != 1 {
+	if n := count(s3, ex.s3Exact); n != 1 {
 		return "second-record-behind-bad-input-damaged", fmt.Sprintf("the second well-formed record behind the bad input came out intact %d times; units: %s", n, describe())
 	}
+	// ---- the parser behind the framer: every unit counted once, what it passes is delivered, the three records arrive whole
+	pr := rig
+	dp, dd := int(pr.pass.Get()-pr.p0), int(pr.drop.Get()-pr.d0)
+	if dp+dd != len(units) {
+		return "parse:unit-not-counted-once", fmt.Sprintf("the framer emitted %d units, the parser counted passed=%d dropped=%d; units: %s", len(units), dp, dd, describe())
+	}
+	if dp != len(pr.got) {
+		return "parse:passed-differs-from-delivered", fmt.Sprintf("the parser counted %d passed records and handed %d on; units: %s", dp, len(pr.got), describe())
+	}
+	for i, s := range []string{s1, s2, s3} {
+		exact := []bool{ex.s1Exact, ex.s2Exact, ex.s3Exact}[i]
+		f := strings.SplitN(s, " ", 8)
+		n := 0
+		for _, g := range pr.got {
+			if g.host == f[2] && g.app == f[3] && g.pid == f[4] && g.source == f[5] && (g.log == msgOf(s) || !exact && strings.HasPrefix(g.log, msgOf(s)+"\n")) {
+				n++
+			}
+		}
+		if n != 1 {
+			return "parse:well-formed-record-not-delivered-whole", fmt.Sprintf("record %d (%q) was emitted whole by the framer but the parser handed it on %d times (with its own header fields and message); parsed: %+v", i+1, s, n, pr.got)
+		}
+	}
 	return "", ""
+}
+
+// overflowExplains decides whether the loss of S2 is the documented overflow behaviour of the line buffer ("If the size is
+// insufficient to hold one log, the rest of it is cut off": when less than one record limit of space is left, the reader
+// hands over what it holds - unfinished last line included - and starts again with an empty buffer). It is, if and only if
+//   - S2 was split at ONE offset c, 0 < c < len(S2): no unit carries bytes of S2 except (optionally) one unit that ENDS with
+//     S2[:c] (S2[:c] alone = "cut in two", or a lump ending in "\n"+S2[:c]) and (optionally) one unit that IS S2[c:];
+//   - S3 and everything else is as required (checked by the caller before / after);
+//   - the split point is the end of a Read call in which the reader emptied its buffer (observed: append offset back to 0),
+//   - and at that moment the buffer held more than size - limit bytes (the arithmetic of the documented rule).
+//
+// Returns "" if so, else what does not fit.
+func overflowExplains(stream []byte, out *outcome, s2, s3 string) string {
+	s2start := bytes.Index(stream, []byte(s2+"\n"+s3))
+	if s2start < 0 {
+		return "harness: S2 not found in the stream"
+	}
+	// candidate split points: resets inside S2
+	for _, rd := range out.reads {
+		c := rd.total - s2start
+		if !rd.reset || c <= 0 || c >= len(s2) {
+			continue
+		}
+		if rd.held <= bufSize-softLimit {
+			return fmt.Sprintf("the reader emptied its buffer %d bytes into the record while holding only %d bytes (buffer %d, limit %d)", c, rd.held, bufSize, softLimit)
+		}
+		head, tail := s2[:c], s2[c:]
+		// every unit that has anything of S2 must be the head-carrier or the tail
+		heads, tails := 0, 0
+		for _, u := range out.units {
+			us := string(u)
+			switch {
+			case us == tail:
+				tails++
+			case us == head || strings.HasSuffix(us, "\n"+head):
+				heads++
+			case strings.Contains(us, s2[:8]) && strings.Contains(us, "host app 2 "):
+				return "a unit carries the head of the record in another form"
+			case len(tail) >= 6 && strings.Contains(us, tail):
+				return "a unit carries the rest of the record in another form"
+			}
+		}
+		if heads > 1 || tails > 1 {
+			return fmt.Sprintf("the head of the record came out %d times and its rest %d times", heads, tails)
+		}
+		return ""
+	}
+	return "no Read call ended inside the record with the reader emptying its buffer"
 }
 
 func enumerate(ctx *seq.Ctx) {
@@ -193,7 +393,7 @@ func enumerate(ctx *seq.Ctx) {
 				}
 				cc, mm := append([]int(nil), cuts...), m
 				ctx.Case(fmt.Sprintf("%s/cuts%v/flush%d", k.name, cc, mm), k.name != "none", k.name, func() (string, string) {
-					return check(stream, s1, s2, s3, cc, mm)
+					return check(stream, s1, s2, s3, cc, mm, middle)
 				})
 			}
 		}
@@ -212,6 +412,80 @@ func enumerate(ctx *seq.Ctx) {
 					continue
 				}
 				emit([]int{a, b})
+			}
+		}
+	}
+	enumShortLines(ctx, s1, s2, s3)
+}
+
+// enumShortLines: every string X over {<,1,9,>,space,-,a} up to length 6 (thorough 7) - all heads of one to four PRI digits
+// that stop short of a record are among them - as a line of its own in four places of a stream of well-formed records.
+// One case = one X in all places:
+//
+//	front         X \n S1 \n S2 \n S3 \n            (X is the first thing a connection sends)
+//	middle        S1 \n X \n S2 \n S3 \n            (no cut, no flush: X is tested with earlier lines in the buffer)
+//	middle/flush  [S1 \n] [X \n] [S2 \n S3 \n]      (a flush tick after every segment: X is what a flush finds)
+//	tail          [S1 \n S2 \n S3 \n] [X]           (flush after the first segment, then the client disconnects: X is the
+//	                                                 unfinished last line at the final flush)
+//	tail/attached S1 \n S2 \n S3 \n X               (no flush: X ends the stream behind S3)
+func enumShortLines(ctx *seq.Ctx, s1, s2, s3 string) {
+	const alphabet = "<19> -a"
+	maxLen := 6
+	if ctx.Thorough() {
+		maxLen = 7
+	}
+	all := s1 + "\n" + s2 + "\n" + s3 + "\n"
+	for l := 0; l <= maxLen; l++ {
+		ctx.Group(fmt.Sprintf("short-line/len%d", l))
+		idx := make([]int, l)
+		for {
+			if ctx.Stop() {
+				return
+			}
+			if ctx.Mine() {
+				b := make([]byte, l)
+				for i, x := range idx {
+					b[i] = alphabet[x]
+				}
+				x := string(b)
+				ctx.Case("short-line/"+x, true, x, func() (string, string) {
+					type place struct {
+						name   string
+						stream string
+						cuts   []int
+						mask   int
+						ex     expect
+					}
+					places := []place{
+						{"front", x + "\n" + all, nil, 0, expect{false, true, true}},
+						{"middle", s1 + "\n" + x + "\n" + s2 + "\n" + s3 + "\n", nil, 0, middle},
+						{"middle/flush", s1 + "\n" + x + "\n" + s2 + "\n" + s3 + "\n", []int{len(s1) + 1, len(s1) + 1 + len(x) + 1}, 7, expect{true, true, true}},
+						{"tail/attached", all + x, nil, 0, expect{true, true, false}},
+					}
+					if len(x) > 0 {
+						places = append(places, place{"tail", all + x, []int{len(all)}, 3, expect{true, true, true}})
+					}
+					for _, p := range places {
+						if key, msg := check([]byte(p.stream), s1, s2, s3, p.cuts, p.mask, p.ex); key != "" {
+							return key, "place " + p.name + ": " + msg
+						}
+					}
+					return "", ""
+				})
+			} else {
+				ctx.Skip()
+			}
+			i := l - 1
+			for i >= 0 {
+				idx[i]++
+				if idx[i] < len(alphabet) {
+					break
+				}
+				idx[i] = 0
+				i--
+			}
+			if i < 0 {
+				break
 			}
 		}
 	}
@@ -237,14 +511,22 @@ func main() {
 	seq.Main(&seq.Config{
 		Property: "C07",
 		Level:    "exploration",
-		Rule: "stream level: streams S1, BAD, S2, S3 through the real multiLineReader + syslogprotocol.TestRecordStart at scaled sizes (soft limit 64, buffer 256 = the shipped 1:4 proportion); BAD from a menu of 28 kinds " +
-			"(garbage, empty lines, binary, partial heads, NUL runs, over-long lines and over-long records at every structural size around limit / free space / buffer / multiples); ALL 1-cut and 2-cut fragmentations " +
-			"(streams over 400 bytes in the quick tier: cut pairs near structural positions) x {no flush, flush tick after every segment} (thorough: every flush placement); " +
-			"oracle: no wedge/panic, S1 once with its own bytes first, S2 and S3 exactly once and byte-identical; non-trivial = every case with a bad stretch",
+		Rule: "stream level: streams S1, BAD, S2, S3 through the real multiLineReader + syslogprotocol.TestRecordStart at scaled sizes (soft limit 64, buffer 256 = the shipped 1:4 proportion), every emitted unit handed on to the " +
+			"Accept of a real LogParsingReceiver sink (real syslog parser, one long-lived instance per worker process) whose output is captured; BAD from a menu of 32 kinds " +
+			"(garbage, empty lines, binary, partial heads of every PRI width, NUL runs, over-long lines and over-long records at every structural size around limit / free space / buffer / multiples); ALL 1-cut and 2-cut fragmentations " +
+			"(streams over 400 bytes in the quick tier: cut pairs near structural positions) x {no flush, flush tick after every segment} (thorough: every flush placement); plus every string over {<,1,9,>,space,-,a} of length 0-6 " +
+			"(thorough 0-7) as a line of its own in front of, between and behind the records and as the unfinished last line at a disconnect; " +
+			"oracle: no wedge/panic (framer, record-start test, parser), S1 once with its own bytes first, S2 and S3 exactly once and byte-identical, every emitted unit counted once by the parser (passed + dropped), " +
+			"passed = handed on, and S1 / S2 / S3 handed on once each with their own header fields and message; non-trivial = every case with a bad stretch",
 		Assumptions: []string{
 			"bad lines may be attached to the record in front of them (continuation lines) or rejected; only the records BEHIND the bad input must be exact",
 			"flush ticks fall between TCP segments only (all runConnection can do)",
+			"the parser behind the scaled framer runs with the shipped limits of defs (it never cuts a unit of at most 256 bytes): no panic, accounting and the delivery of the three records are what is judged there",
+			"the known-finding key " + knownKey + " is given only to the documented overflow cut: S2 split at ONE offset, that offset being the end of a Read call in which the reader emptied its buffer " +
+				"while holding more than buffer - limit bytes (observed through the diagnostic accessor Offsets), nothing else of S2 in any unit; every other loss of S2 has the key ...lost-or-cut:not-the-documented-overflow-cut or ...damaged",
 		},
-		Enumerate: enumerate,
+		Enumerate:        enumerate,
+		QuickDeadline:    20 * time.Minute,
+		ThoroughDeadline: 45 * time.Minute,
 	})
 }
